@@ -393,6 +393,7 @@ func check(c Case) (string, string, outcome) {
 	if p := dry.consistent(); p != "" {
 		return base + " fault-free:inconsistent", p, out
 	}
+	dryContents := dry.storeContents()
 	out.storeCalls = n
 	if n > 200 {
 		n = 200
@@ -404,8 +405,12 @@ func check(c Case) (string, string, outcome) {
 		}
 		out.faultRuns++
 		firedAt := -1
+		allSame := true
 		for i, s := range c.Steps {
 			res := e.apply(s)
+			if !sameRes(res, dryRes[i]) {
+				allSame = false
+			}
 			if res.Hung {
 				return base + " hang", fmt.Sprintf("store call %d failing: step %d %v did not return", fault, i, s), out
 			}
@@ -431,6 +436,12 @@ func check(c Case) (string, string, outcome) {
 			}
 		}
 		e.disarm()
+		if allSame && firedAt >= 0 {
+			// every operation reported exactly what it reports without the fault: then nothing may be missing from the store either
+			if got := e.storeContents(); !reflect.DeepEqual(got, dryContents) {
+				return base + " silent-loss:" + strings.Fields(e.fired())[0] + ":" + c.Steps[firedAt].K, fmt.Sprintf("store call %q failed during step %d %v; every operation of the history reported the same result as without the fault, but the store ends up with %v instead of %v", e.fired(), firedAt, c.Steps[firedAt], got, dryContents), out
+			}
+		}
 		if p := e.consistent(); p != "" {
 			return base + " inconsistent-after-fault", fmt.Sprintf("after store call %d (%s) failed during step %d of %v: %s", fault, e.fired(), firedAt, c.Steps, p), out
 		}
